@@ -216,10 +216,21 @@ def sideMounts : List (Route × App) → Bool
   | (_, a) :: rest => sideCond a && sideMounts rest
 end
 
-/-- **C04, scope (statement; the proof is build-phase work on top of the C01 refinement).** -/
+-- the ids of the applications of a tree (`ID::new()` draws them from a process-wide counter, so they are pairwise distinct)
+mutual
+def idsOf : App → List Nat
+  | .mk id _ _ mounts => id :: idsOfMounts mounts
+def idsOfMounts : List (Route × App) → List Nat
+  | [] => []
+  | (_, a) :: rest => idsOf a ++ idsOfMounts rest
+end
+
+/-- **C04, scope (statement; proved in `FangsScopeSearch.lean`, theorem `scope_statement`, re-exported as `C04.scope`).**
+    For every application tree satisfying the side condition, with distinct application ids, and every path: the fang list of the
+    answering node of the finalized router is, outermost first, the chain of applications whose mount prefix contains the path. -/
 def ScopeStatement : Prop :=
-  ∀ (cfg : App) (t : BN) (ss : List Bytes) (fuel : Nat), sideCond cfg = true → build cfg = some t →
-    ss.length + 2 ≤ fuel → ss.all (· ≠ []) →
+  ∀ (cfg : App) (t : BN) (ss : List Bytes) (fuel : Nat), sideCond cfg = true → (idsOf cfg).Nodup → build cfg = some t →
+    ss.length + 2 ≤ fuel →
     (search fuel (finalize true fuel t false) ss).1.reverse = scopeChain cfg ss
 
 end Ohkami.Fangs
